@@ -221,6 +221,9 @@ pub fn c17(ctx: &mut Ctx) {
         if observe::capture_active() {
             let _ = observe::capture_take();
         }
+        if observe::errcap_active() {
+            let _ = observe::errcap_take();
+        }
         let barrier = Arc::new(Barrier::new(threads));
         let seq = Arc::new(AtomicU64::new(0));
         let order: Arc<Mutex<Vec<(u64, u8)>>> = Arc::new(Mutex::new(Vec::new()));
@@ -293,6 +296,15 @@ pub fn c17(ctx: &mut Ctx) {
             if want != got {
                 let diff: Vec<String> = want.iter().filter(|(k, n)| got.get(*k) != Some(n)).map(|(k, n)| format!("{} want {} got {:?}", k, n, got.get(k))).take(5).collect();
                 ctx.violation_x("c17.concurrent-effects", "log-multiset", &json!("concurrent round"), &Value::Null, json!("every evaluated log prints exactly one whole line"), json!(diff), "lines printed during a concurrent round are not the union of the isolated traces (lost, duplicated or torn lines)", json!({"round": round, "threads": threads}));
+            }
+        }
+        if observe::errcap_active() {
+            let e = observe::errcap_take();
+            ctx.mon("c17.stderr-silent").observed += 1;
+            ctx.mon("c17.stderr-silent").judged += 1;
+            if !e.is_empty() {
+                let got: String = e.chars().take(300).collect();
+                ctx.violation_x("c17.stderr-silent", "stderr-write:concurrent-round", &json!("concurrent round"), &Value::Null, json!("nothing written to fd 2"), json!({ "stderr": got }), "evaluations wrote to standard error during a concurrent round", json!({"round": round, "threads": threads}));
             }
         }
         // completion-order signature (which interleaving did we see?)
